@@ -120,6 +120,17 @@ Definition get_description_tag (f : file) : option str :=
   | None => None
   end.
 
+(* readDescription as used by GetDescription / GetSanitisedDescription / the
+   GET handlers: the file is opened ONCE; the definition is decoded from that
+   descriptor and size/mtime come from fstat on the same descriptor, so the
+   content and the stamp a reader gets belong to the same version (no writer
+   ever modifies a definition file in place).  One step. *)
+Definition read_description (f : file) : option (content * str) :=
+  match f with
+  | Some (c, s) => Some (c, make_etag s)
+  | None => None
+  end.
+
 (* GetUserTag (GetSanitisedUser): the tag of the FILE if the user exists *)
 Definition get_user_tag (f : file) (t : target) : option str :=
   match f with
